@@ -303,6 +303,55 @@ def run_hist1d_scatter_plot(rep, tier, rng):
             rep.validated()
 
 
+def run_norm_instances(rep, tier, rng):
+    """a matplotlib norm object given at call or layer level is an input like any other: it is left as it was (matplotlib
+    scales a norm in place when it draws), each layer is scaled on its own data, and vmin/vmax apply as for the named norms"""
+    import matplotlib.pyplot as plt
+    import numpy as np
+    import osyris
+    from matplotlib.colors import LogNorm, Normalize
+    for fn in ("map", "histogram2d"):
+        for level in ("call", "layer"):
+            for limits in (False, True):
+                dg = mesh3()
+                norm = LogNorm() if fn == "map" else Normalize()
+                lkw = {"norm": norm} if level == "layer" else {}
+                ckw = {"norm": norm} if level == "call" else {}
+                if limits:
+                    (lkw if level == "layer" else ckw).update(vmin=3.0, vmax=6.0)
+                rep.case(klass=("norm-instance", fn, level, limits))
+                d = None
+                try:
+                    with contextlib.redirect_stdout(io.StringIO()):
+                        if fn == "map":
+                            L1, L2 = dg.layer("density", **lkw), dg.layer("pressure")
+                            p = osyris.map(L1, L2, dx=1.0 * osyris.units("cm"), origin=osyris.Vector(0.5, 0.5, 0.5, unit="cm"), resolution=4, plot=True, **ckw)
+                        else:
+                            x = osyris.Array(np.array([0.5, 0.5, 2.5, 3.5, 0.5, 1.5]), unit="m")
+                            y = osyris.Array(np.array([0.5, 0.5, 1.5, 1.5, 2.5, 3.5]), unit="s")
+                            L1 = osyris.core.layer.Layer(osyris.Array(np.array([1.0, 2.0, 4.0, 8.0, 16.0, 32.0]), unit="K"), **lkw)
+                            L2 = osyris.core.layer.Layer(osyris.Array(np.array([300.0, 300.0, 500.0, 500.0, 700.0, 900.0]), unit="g"))
+                            p = osyris.histogram2d(x, y, L1, L2, resolution=4, xmin=0.0, xmax=4.0, ymin=0.0, ymax=4.0, plot=True, **ckw)
+                    if (norm.vmin, norm.vmax) != (None, None):
+                        d = f"arguments: the norm object given at {level} level was modified (vmin, vmax = {norm.vmin}, {norm.vmax})"
+                    used = [lay["params"]["norm"] for lay in p.layers]
+                    if d is None and any(u is norm for u in used):
+                        d = "arguments: the caller's norm object itself is used for drawing (matplotlib scales it in place)"
+                    if d is None and level == "call" and used[0] is used[1]:
+                        d = "precedence: two layers share one norm object, the second is drawn with the colour range of the first"
+                    if d is None and limits and (used[0].vmin, used[0].vmax) != (3.0, 6.0):
+                        d = f"precedence: vmin/vmax given next to a norm object are dropped (range {used[0].vmin}, {used[0].vmax})"
+                except Exception as e:
+                    d = f"raises: {type(e).__name__}: {e}"
+                finally:
+                    plt.close("all")
+                if d:
+                    rep.mismatch({"module": "LayerOptions", "fn": fn, "field": "norm-instance-" + d.split(":")[0]}, f"{fn}, norm object at {level} level{', with vmin/vmax' if limits else ''}: {d}",
+                                 case={"fn": fn, "level": level, "limits": limits}, module="layers")
+                else:
+                    rep.validated()
+
+
 def run_orientation_purity(rep, tier, rng):
     """ArgumentsUntouched for every way of giving the orientation (C18's request kinds) with and without an origin:
     the data (positions, velocities, masses), the origin and the orientation objects are snapshot before the first call,
@@ -398,6 +447,7 @@ def run_c19(rep, tier, seed):
         run_history(rep, rec, idx, rng)
     run_hist1d_scatter_plot(rep, tier, rng)
     run_orientation_purity(rep, tier, rng)
+    run_norm_instances(rep, tier, rng)
     rep.sample({"history": chosen[len(one) + 1]["hist"], "layer_level_options": chosen[len(one) + 1]["layer"]}, limit=2)
     rep.part("replay", histories=len(chosen), of_length_1=len(one), of_length_2=len(chosen) - len(one), emitted=len(recs))
     rep.cov["rule"] = ("LayerOptions.tla enumerates every history of up to 2 calls of map / histogram2d over the lattice of call-level option sets (each of mode, norm, vmin, vmax, operation, extra keyword "
